@@ -48,6 +48,28 @@ def fixed_specs():
                   K('U', 'A1', C): const(('n', 7.0)), K('U', 'A2', C): const(('n', 8.0)),
                   K('U', 'C1', C): op('*', ['name', C, 'RATE'], num(2)), K('U', 'C2', C): fn('SUM', ['name', C, 'BOTH'])},
         'arrays': {}, 'names': {'%s|RATE' % C: cell('U', 'A1', C), '%s|BOTH' % C: rng('U', 'A1:A2', C)}, 'sheets': [[B, 'S'], [C, 'U']]}
+    # one blank cell read by several formulas with different operators (what one reader does must not show to the next)
+    out['blank-shared'] = {
+        'cells': {K('S', 'A2'): const(('n', 2.0)), K('S', 'B1'): op('+', cell('S', 'A1'), num(1)), K('S', 'B2'): op('&', cell('S', 'A1'), ['txt', 'x']),
+                  K('S', 'B3'): op('=', cell('S', 'A1'), ['txt', '']), K('S', 'B4'): op('=', cell('S', 'A1'), num(0)), K('S', 'B5'): fn('SUM', rng('S', 'A1:A2')),
+                  K('S', 'B6'): op('*', cell('S', 'A1'), cell('S', 'A2')), K('S', 'B7'): fn('ISBLANK', cell('S', 'A1')), K('S', 'B8'): op('-', cell('S', 'A2'), cell('S', 'A1')),
+                  K('S', 'B9'): fn('COUNT', rng('S', 'A1:A2'))},
+        'arrays': {}, 'names': {}, 'sheets': [[B, 'S']]}
+    # a defined name that refers to a whole column (file path: the loader clips it to the used area)
+    out['name-whole-column'] = {
+        'cells': {K('S', 'A1'): const(('n', 1.0)), K('S', 'A2'): const(('n', 2.0)), K('S', 'A4'): const(('n', 4.0)),
+                  K('S', 'C1'): fn('SUM', ['name', B, 'COLA']), K('S', 'C2'): fn('COUNT', ['name', B, 'COLA']), K('S', 'C3'): fn('MAX', ['name', B, 'COLA'], num(3))},
+        'arrays': {}, 'names': {'%s|COLA' % B: ['col', B, 'S', 'A']}, 'sheets': [[B, 'S']], 'slow': True}
+    # the same sheet name in two books, different used extents, in both file-name orders (the completion work-list is sorted)
+    for tag, small, big in (('same-sheet-extent', B, C), ('same-sheet-extent-rev', C, B)):
+        kk = lambda s, c, b: M.W.key(b, s, c)
+        cells = {kk('Data', 'B1', small): const(('n', 1.0)), kk('Data', 'B2', small): const(('n', 2.0))}
+        for r in range(1, 9):
+            cells[kk('Data', 'A%d' % r, big)] = const(('n', float(10 * r)))
+        cells[kk('Data', 'A1', small)] = fn('SUM', ['rng', big, 'Data', 'A1:A8'])
+        cells[kk('Data', 'A2', small)] = fn('SUM', ['rng', small, 'Data', 'B1:B2'])
+        cells[kk('Data', 'A3', small)] = op('+', ['cell', big, 'Data', 'A7'], ['cell', big, 'Data', 'A8'])
+        out[tag] = {'cells': cells, 'arrays': {}, 'names': {}, 'sheets': [[small, 'Data'], [big, 'Data']], 'home': small}
     # the same sheet name in two books
     out['same-sheet-name'] = {
         'cells': {K('S', 'A1'): const(('n', 1.0)), K('S', 'B1'): op('+', cell('S', 'A1'), cell('S', 'A1', C)), K('S', 'A1', C): const(('n', 100.0)),
@@ -163,7 +185,8 @@ def run_wb(case):
         loads = [books]
         sheet_orders = [None]
         if sched == 'files':
-            loads = [list(p) for p in itertools.permutations(books)] + [[b] for b in books[:1]]
+            home = spec.get('home')
+            loads = [list(p) for p in itertools.permutations(books)] + [[b] for b in ([home] if home else books[:1])]
             so = X.books_of(spec)
             sheet_orders = [None] + [{F.B1: list(p)} for p in itertools.permutations(so.get(F.B1, []))][1:]
         for ld in loads:
@@ -221,7 +244,10 @@ def wb_cases(tier):
 
 def sched_cases(tier):
     q = tier == 'quick'
-    for name in fixed_specs():
+    for name, sp in fixed_specs().items():
+        if sp.get('slow'):
+            yield {'k': 'wb', 'fixed': name, 'paths': ['file']}
+            continue
         yield {'k': 'wb', 'fixed': name, 'paths': ['dict', 'file']}
         yield {'k': 'wb', 'fixed': name, 'paths': ['dict'], 'sched': 'dict', 'full': False}
         yield {'k': 'wb', 'fixed': name, 'paths': ['dict'], 'sched': 'assemble'}
